@@ -520,3 +520,4 @@ Proof.
     + rewrite E in Hc1. destruct (IH s1 H2 H4 Hc1) as [s' [E' [Hc' [Hn' Ht']]]].
       exists s'. split; [assumption|split; [assumption|split; lia]].
 Qed.
+
